@@ -125,10 +125,13 @@ def binding(ctx):
     # sparse helpers and distances
     r = tlc.run_tlc("SparseOps", dict(Dim=3, Vals=E("{-1,0,1,2}"), EMIT=True), invariants=["EmitInv"], workers=1, timeout=1800)
     ctx.add_tlc(r, "SparseOps pairs for the mode comparison")
-    modes(ctx, "sparse_helpers", "dist", "run_sparse", rng.sample(r.prints, 200 * n), nproc=3, min_chunk=60)
+    # boundary pairs first (empty vectors, single entries: where a merge loop or a mask can run off an empty buffer), then a sample
+    small = [p for p in r.prints if len(p["a"][0]) <= 1 and len(p["b"][0]) <= 1]
+    modes(ctx, "sparse_helpers", "dist", "run_sparse", small + rng.sample(r.prints, 200 * n), nproc=3, min_chunk=60)
     r = tlc.run_tlc("Dist", dict(Dim=3, Entries=E("{0,1,4,9}"), EMIT=True, Triples=False), invariants=["EmitInv"], workers=1, timeout=1800)
     ctx.add_tlc(r, "Dist pairs for the mode comparison")
-    modes(ctx, "distances", "dist", "run_dist", rng.sample(r.prints, 100 * n), nproc=3, min_chunk=30)
+    sparse_pairs = [p for p in r.prints if sum(1 for v in p["x"] if v) <= 1 and sum(1 for v in p["y"] if v) <= 1]
+    modes(ctx, "distances", "dist", "run_dist", sparse_pairs + rng.sample(r.prints, 100 * n), nproc=3, min_chunk=30)
     # information weights on every storage format of the same matrices (unsorted CSC indices, explicit zeros, duplicates)
     from . import c17
     r = tlc.run_tlc("InfoWeight", dict(MODE="encodings", Bases=c17.BASES, NR=3, NC=3, MaxLen=7, MaxSteps=2, DRows=1, DMax=1,
